@@ -54,7 +54,15 @@ func (m *Order) AfterStep(c *sim.Cluster) []ev.Violation {
 			}
 		}
 		for k := st.consumed; k < len(n.App.Commits); k++ {
-			st.blocksRR[n.App.Commits[k].Body.RoundReceived] = k
+			rr := n.App.Commits[k].Body.RoundReceived
+			if prev, dup := st.blocksRR[rr]; dup && n.FFStep < 0 {
+				// a block is the payload of the events of one round-received: a second block for the same
+				// round commits every one of them again
+				out = append(out, ev.Violation{Property: "C04", Key: "event-committed-twice",
+					What:   fmt.Sprintf("node %d delivered block %d for round-received %d, which it had already delivered as block %d: every event of that round is committed twice", n.Idx, n.App.Commits[k].Body.Index, rr, n.App.Commits[prev].Body.Index),
+					Replay: replay(c, map[string]interface{}{"node": n.Idx, "round": rr})})
+			}
+			st.blocksRR[rr] = k
 		}
 		st.consumed = len(n.App.Commits)
 		h := n.Node.VHashgraph()
